@@ -187,6 +187,8 @@ type Sched struct {
 	cfg       Config
 	ch        Chooser
 	tasks     []*Task
+	live      []*Task // tasks that have not ended (scanned at every scheduling point)
+	rbuf      []*Task
 	cur       *Task
 	now       time.Duration
 	timers    timerHeap
@@ -317,6 +319,7 @@ func (s *Sched) newTask(fn func(), parent int) *Task {
 		t.prio = 1000 + s.ch.Intn(1000)*16 + t.ID
 	}
 	s.tasks = append(s.tasks, t)
+	s.live = append(s.live, t)
 	s.Stats.Tasks++
 	go func() {
 		defer close(t.exited)
@@ -343,6 +346,12 @@ func (s *Sched) taskEnd(t *Task) {
 		s.Emit("task-panic", fmt.Sprint(r))
 	}
 	t.state = done
+	for i, x := range s.live {
+		if x == t {
+			s.live = append(s.live[:i], s.live[i+1:]...)
+			break
+		}
+	}
 	s.Emit("task-end", "")
 	next := s.dispatch()
 	if next == nil {
@@ -417,8 +426,8 @@ func (s *Sched) switchTo(next *Task, site string) {
 }
 
 func (s *Sched) runnable() []*Task {
-	var r []*Task
-	for _, t := range s.tasks {
+	r := s.rbuf[:0]
+	for _, t := range s.live {
 		if t.state == runnable {
 			r = append(r, t)
 		}
@@ -426,6 +435,7 @@ func (s *Sched) runnable() []*Task {
 	if len(r) > s.Stats.MaxRunnable {
 		s.Stats.MaxRunnable = len(r)
 	}
+	s.rbuf = r
 	return r
 }
 
@@ -491,13 +501,7 @@ func (s *Sched) dispatch() *Task {
 		if len(s.timers) == 0 {
 			return nil
 		}
-		alive := false
-		for _, t := range s.tasks {
-			if t.state != done {
-				alive = true
-			}
-		}
-		if !alive {
+		if len(s.live) == 0 {
 			return nil
 		}
 		if !s.step() {
